@@ -226,6 +226,7 @@ _RE_STATS = re.compile(r"(\d+) states generated, (\d+) distinct states found")
 _RE_DEPTH = re.compile(r"The depth of the complete state graph search is (\d+)")
 _RE_INV = re.compile(r"Invariant (\S+) is violated")
 _RE_PROP = re.compile(r"(?:Action|Temporal) propert(?:y|ies) (\S+)? ?(?:is|were) violated")
+_RE_COV_SUB = re.compile(r"^<Next line \d+, col \d+ to line \d+, col \d+ of module (\w+) \((\d+) \d+ \d+ \d+\)>: (\d+):(\d+)", re.M)
 _RE_COV = re.compile(r"^<(\w+) line \d+, col \d+ to line \d+, col \d+ of module (\w+)>: (\d+):(\d+)", re.M)
 
 
@@ -299,6 +300,19 @@ def run_tlc(
         d, t = int(mm.group(3)), int(mm.group(4))
         od, ot = res.coverage.get(name, (0, 0))
         res.coverage[name] = (od + d, ot + t)
+    # disjuncts of Next that TLC could not name (e.g. \E e \in <state set> : A(e)): name them from the source line
+    for mm in _RE_COV_SUB.finditer(out):
+        try:
+            src = (spec_dir / f"{mm.group(1)}.tla").read_text().splitlines()[int(mm.group(2)) - 1]
+            m2 = re.search(r":\s*(\w+)\(", src)
+            if not m2:
+                continue
+            name = m2.group(1)
+            d, t = int(mm.group(3)), int(mm.group(4))
+            od, ot = res.coverage.get(name, (0, 0))
+            res.coverage[name] = (od + d, ot + t)
+        except (OSError, IndexError):
+            continue
     # machinery failure: non-zero exit without a property violation / deadlock report
     if p.returncode != 0 and not res.violated and "Deadlock reached" not in out:
         raise MachineryError(f"TLC failed (exit {p.returncode}): {' '.join(cmd)}\n{out[-3000:]}")
